@@ -256,6 +256,22 @@ let run_ivfcw toks =
     String.concat " " (Stdlib.List.map (fun l -> hex_of_bytes l.lv_data) t) ^ " " ^ hex_of_bytes (Stdlib.List.concat m)
   | _ -> failwith "ivfcw args"
 
+(* ---- C16: closing ------------------------------------------------------ *)
+let run_close toks =
+  match toks with
+  | [gs; ops] ->
+    let ints s = if s = "" then [] else Stdlib.List.map (fun x -> nat_of_int (int_of_string x)) (String.split_on_char ',' s) in
+    let g = Stdlib.List.map (fun n -> match String.split_on_char '|' n with
+      | [a; b; c; d] -> { Close.n_guard = ints a; Close.n_under = ints b; Close.n_closes = ints c; Close.n_self = (d = "1") } | _ -> failwith "node") (String.split_on_char ';' gs) in
+    let ops = if ops = "-" then [] else Stdlib.List.map (fun o ->
+      let k = nat_of_int (int_of_string (String.sub o 1 (String.length o - 1))) in
+      match o.[0] with 'c' -> Close.Close k | 's' -> Close.UseS k | 'd' -> Close.UseD k | _ -> failwith "op") (String.split_on_char ',' ops) in
+    let (s, outs) = Close.run g Close.s0 ops in
+    let n = Stdlib.List.length g in
+    let flags = String.concat "" (Stdlib.List.init n (fun i -> if s (nat_of_int i) then "1" else "0")) in
+    String.concat "" (Stdlib.List.map (function None -> "-" | Some true -> "1" | Some false -> "0") outs) ^ " " ^ flags
+  | _ -> failwith "close args"
+
 let dispatch (line : string) : string =
   match String.split_on_char ' ' (String.trim line) with
   | "engine" :: toks -> run_engine toks
@@ -271,6 +287,7 @@ let dispatch (line : string) : string =
   | "sdkey" :: toks -> run_sdkey toks
   | "ivfc" :: toks -> run_ivfc toks
   | "ivfcw" :: toks -> run_ivfcw toks
+  | "close" :: toks -> run_close toks
   | e :: _ -> failwith ("unknown entry " ^ e)
   | [] -> ""
 
